@@ -640,6 +640,42 @@ def rt_converge(case):
     return []
 
 
+def usable_after_rpc_refusal(case):
+    """C16 (last clause, real client): after a push-pull RPC that was refused as a whole (the real server does not know the client id,
+    or the transport failed) the refusal is RETURNED to the caller, and the client remains usable: its next Sync() returns without
+    error, nothing stays pending, and the other client reaches the same value."""
+    for idx, (ln, mo) in enumerate(case):
+        if ln.get("k") != "rtcase" or ln.get("profile") != "rtrefuse":
+            continue
+        io = ln.get("obs", {})
+        if io.get("setup"):
+            return [dict(step=idx, what="realtime-setup-failed", detail=dict(cmd=strip(ln), msg=io.get("setup")))]
+        if io.get("panic") or io.get("hang"):
+            return [dict(step=idx, what="client-run-crashed", detail=dict(cmd=strip(ln), msg=str(io.get("panicMsg"))[-600:]))]
+        for k, rf in enumerate(io.get("refused") or []):
+            if not rf.get("returned"):
+                return [dict(step=idx, what="sync-hangs-after-refused-rpc", detail=dict(cmd=strip(ln), refused=io.get("refused"), which=k))]
+            if not str(rf.get("err", "")).startswith("error"):
+                return [dict(step=idx, what="refused-rpc-not-reported", detail=dict(cmd=strip(ln), refused=io.get("refused"), which=k))]
+        nx = io.get("next") or {}
+        if not nx.get("returned"):
+            return [dict(step=idx, what="sync-hangs-after-refused-rpc", detail=dict(cmd=strip(ln), refused=io.get("refused"), next=nx))]
+        if nx.get("err"):
+            return [dict(step=idx, what="client-unusable-after-refused-rpc", detail=dict(cmd=strip(ln), next=nx))]
+        ot = io.get("other") or {}
+        if not ot.get("returned") or ot.get("err"):
+            return [dict(step=idx, what="other-client-cannot-sync", detail=dict(cmd=strip(ln), other=ot))]
+        if io.get("npending"):
+            return [dict(step=idx, what="operations-still-pending-after-sync", detail=dict(cmd=strip(ln), npending=io.get("npending")))]
+        vs = io.get("views") or []
+        if len(vs) != 2 or first_diff(vs[0], vs[1]):
+            return [dict(step=idx, what="clients-differ-after-refused-rpc", detail=dict(cmd=strip(ln), views=vs))]
+        # creation snapshot + every operation issued by the client
+        if io.get("stored") != 1 + ln.get("ops", 0) + 1:
+            return [dict(step=idx, what="stored-operations-differ", detail=dict(cmd=strip(ln), stored=io.get("stored"), expected=2 + ln.get("ops", 0)))]
+    return []
+
+
 def isolation(case):
     """C17: a request by a client of collection A leaves every document of the other collections
     unchanged; a foreign request is refused."""
@@ -952,6 +988,6 @@ def hash_unique(case):
     return []
 
 
-ORACLES = dict(rt_converge=rt_converge, usable_after_refusal=usable_after_refusal, hash_unique=hash_unique, snapshot_replay=snapshot_replay, goroutines_serial=goroutines_serial, fault_recovers=fault_recovers, enc_roundtrip=enc_roundtrip, patch_target=patch_target, loginv=loginv, sconverge=sconverge, refused_noop=refused_noop,
+ORACLES = dict(rt_converge=rt_converge, usable_after_rpc_refusal=usable_after_rpc_refusal, usable_after_refusal=usable_after_refusal, hash_unique=hash_unique, snapshot_replay=snapshot_replay, goroutines_serial=goroutines_serial, fault_recovers=fault_recovers, enc_roundtrip=enc_roundtrip, patch_target=patch_target, loginv=loginv, sconverge=sconverge, refused_noop=refused_noop,
                isolation=isolation, notify=notify, contract=contract, corr=corr, spec=spec, converge=converge, err_noop=err_noop, no_panic=no_panic,
                seq_gapless=seq_gapless, list_order=list_order, twin=twin, tx_atomic=tx_atomic, plain_doc=plain_doc, lock_excludes=lock_excludes, doc_refs_unique=doc_refs_unique)
